@@ -9,9 +9,10 @@ Space (explorer I), three complete finite grids:
 import itertools
 import numpy as np
 
-from ..engine.explore import Outcome, Refill
+from ..engine.explore import Outcome, Refill, Holder
 
 _refill = Refill()
+_holder = Holder()
 from ..engine import enum
 
 PID = 'C09'
@@ -175,6 +176,8 @@ def check_struct(case):
             # handed over in a caller-owned buffer that is refilled in place from call to call
             Xin = _refill.primed(X * sc, 'struct', lambda b_: frequency_transform(b_, sr, m))
             IP, IF, IA = frequency_transform(Xin, sr, m)
+            for m_ in _holder.swap((IP, IF, IA), 'frequency_transform %s scale %g' % (tag, sc)):
+                viols.append(('struct:earlier-result-changed', m_))
             if not np.array_equal(Xin, X * sc):
                 viols.append(('struct:input-modified', '%s scale %g: the IMF array was changed by the call' % (tag, sc)))
         except Exception as e:
